@@ -55,11 +55,12 @@ T4 ==    {LAnd(s, v) : s \in Eff, v \in {X, Y, Inc("x--", "x")}} \cup {LOr(s, v)
 
 Trees == SetToSeq({e \in T1 \cup T2 \cup T3 \cup T4 : Defined(e)})
 
-StoreNames == <<"dec", "octhex", "emptybad", "minneg">>
+StoreNames == <<"dec", "octhex", "emptybad", "minneg", "gobase">>
 StoreOf(n) ==
     CASE n = "dec"      -> [x |-> [kind |-> "num", v |-> FromNat(3)], y |-> [kind |-> "unset", v |-> Zero]]
       [] n = "octhex"   -> [x |-> [kind |-> "num", v |-> FromNat(8)], y |-> [kind |-> "num", v |-> FromNat(31)]]    \* "010", "0x1F"
       [] n = "emptybad" -> [x |-> [kind |-> "empty", v |-> Zero], y |-> [kind |-> "bad", v |-> Zero]]                \* "", "zz"
+      [] n = "gobase"   -> [x |-> [kind |-> "bad", v |-> Zero], y |-> [kind |-> "bad", v |-> Zero]]                  \* "0b11", "1_000": not C constants
       [] OTHER          -> [x |-> [kind |-> "num", v |-> MinI], y |-> [kind |-> "num", v |-> MinusOne]]
 
 VARIABLE k
